@@ -1026,6 +1026,69 @@ theorem checksum_filter_file_instance (mask : Quic.Dissect.MaskFn) (H : Crypto.P
   rw [e] at this
   exact this
 
+/-! a bystander conversation and a victim (another TCP flow to port 443, and a 14-byte non-IP frame) in one libpcap file -/
+def victimSeg : Frame :=
+  ⟨[1, 2, 3, 4, 5, 6], [7, 8, 9, 10, 11, 12], .v4 ⟨0, 9, true, false, 64, 0, [10, 0, 0, 3], [10, 0, 0, 2], []⟩,
+   .tcp ⟨50001, 443, 77, 88, 0x18, 0, 8192, 0, 0, [], [0x17, 3, 3, 0, 1, 0]⟩, []⟩
+
+def evs3 : List Ev :=
+  [.pkt 1000000000 (ExportInputs.Ex.seg 0x9200).encode, .pkt 1200000000 victimSeg.encode,
+   .pkt 1300000000 [0, 0, 0, 0, 0, 0, 0, 0, 0, 0, 0, 0, 0x88, 0xb5], .pkt 1400000000 (ExportInputs.Ex.seg 0x9200).encode]
+
+def isVictim : Container.Item → Bool
+  | .pkt _ b => b != (ExportInputs.Ex.seg 0x9200).encode
+  | .dsb _ => false
+
+def args0 : Args := ⟨none, none, false, false, false⟩
+def o0 : MainLoop.Opts := (optsOf args0).getD ⟨[], false, false, false, false, []⟩
+def X3 : List (Item Keylog.Key) :=
+  match Ingest.go Keylog.srcHexClass false 0 (evs3.filterMap (scale nano)) with
+  | .ok v => v.1
+  | .error _ => []
+def IS3 : List (Nat × Pipeline.Info) :=
+  match Ingest.go Keylog.srcHexClass false 0 (evs3.filterMap (scale nano)) with
+  | .ok v => v.2
+  | .error _ => []
+
+theorem evs3_read : Ingest.go Keylog.srcHexClass false 0 (evs3.filterMap (scale nano)) = .ok (X3, IS3) := by
+  have h : (match Ingest.go Keylog.srcHexClass false 0 (evs3.filterMap (scale nano)) with
+      | .ok _ => true
+      | .error _ => false) = true := by decide +kernel
+  unfold X3 IS3
+  cases hg : Ingest.go Keylog.srcHexClass false 0 (evs3.filterMap (scale nano)) with
+  | ok v => rfl
+  | error e => rw [hg] at h; cases h
+
+theorem evs3_wf : nano.WF evs3 ∧ nano.WF (evs3.filter (evNotVictim nano isVictim)) := by
+  have e : evs3.filter (evNotVictim nano isVictim) =
+      [.pkt 1000000000 (ExportInputs.Ex.seg 0x9200).encode, .pkt 1400000000 (ExportInputs.Ex.seg 0x9200).encode] := by
+    decide +kernel
+  rw [e]
+  constructor <;>
+  · refine ⟨by decide, by decide, by decide, by decide, by decide, ?_⟩
+    simp only [evs3, LegacyVariant.WFfrom, LegacyVariant.unitsPerSecond]
+    decide +kernel
+
+/-- non-vacuity of `export_bystander_unaffected_encoded`: every hypothesis holds for this four-packet capture (two
+    segments of the bystander's flow, the victim's segment on another flow, a non-IP frame) -/
+theorem bystander_file_instance (mask : Quic.Dissect.MaskFn) (H : Crypto.Prims) (P : Cipher.Prims)
+    (prior : Export.Prior) (kl : Option Keylog.Str) :
+    (tcpView o0 (keptOf (fun it => !isVictim it) (evs3.filterMap (scale nano)) X3)).length = 2 ∧
+    (tcpView o0 (keptOf isVictim (evs3.filterMap (scale nano)) X3)).length = 1 ∧
+    ∃ XB ISB blocksC quicB quicC,
+      Ingest.itemsWith Keylog.srcHexClass false true (encode nano evs3) = .ok (X3, IS3) ∧
+      Ingest.itemsWith Keylog.srcHexClass false true (encode nano (evs3.filter (evNotVictim nano isVictim))) =
+        .ok (XB, ISB) ∧
+      framesFrom mask H P prior args0 (fileKeysOf kl) XB (Ingest.lookup ISB) =
+        .ok ((tlsFrames H P (Ingest.lookup ISB) o0 (fileKeysOf kl) XB).flatten ++ quicB) ∧
+      framesFrom mask H P prior args0 (fileKeysOf kl) X3 (Ingest.lookup IS3) = .ok (blocksC.flatten ++ quicC) ∧
+      Merge (tlsFrames H P (Ingest.lookup ISB) o0 (fileKeysOf kl) XB)
+        ((tlsConvs H P (Ingest.lookup IS3) o0 (keptOf isVictim (evs3.filterMap (scale nano)) X3)).map
+          (convFrames H P (Ingest.lookup IS3) (keysOf (fileKeysOf kl) X3))) blocksC :=
+  ⟨by decide +kernel, by decide +kernel,
+   export_bystander_unaffected_encoded mask H P prior args0 o0 (by decide +kernel) kl nano evs3 isVictim evs3_wf.1
+     evs3_wf.2 X3 IS3 evs3_read (by decide +kernel) (by decide +kernel)⟩
+
 end Ex
 
 end TLX.Props.ExportInputs2
